@@ -2,6 +2,7 @@ package c14
 
 import (
 	"math/rand/v2"
+	"os"
 	"sort"
 	"strings"
 )
@@ -61,6 +62,9 @@ func newScheduler(fx *fixture) *scheduler {
 			v.weight = 1
 		}
 		g := groupOf(v.fam)
+		if only := os.Getenv("C14_GROUPS"); only != "" && !strings.Contains(","+only+",", ","+g+",") { // developer aid
+			continue
+		}
 		if _, ok := s.byGroup[g]; !ok {
 			s.groups = append(s.groups, g)
 			w := groupWeights[g]
